@@ -1,8 +1,288 @@
+import RichModel.Model.Layout
+import RichModel.Gen.CellWidths
 import RichModel.Drv.Proto
-/- Driver handlers for property C01 (stub: filled in when the model is built). -/
-namespace RichModel.Drv.C01
-open RichModel RichModel.Proto
+import RichModel.Drv.C02
+/-
+Driver handlers for properties C01 and C09 (the composition layer, `Model/Layout.lean`).
 
-def handlers : List (String × (List String → String)) := []
+Requests
+  layout_render   <flags> <env> <opts> <width> <tree>   ->  ok:<code points of the concatenated segment text>  | unmodelled
+  layout_measure  <flags> <env> <width> <tree>          ->  m:<min>,<max>                                      | unmodelled
+  layout_smin     <tree>                                ->  <n>                                                | unmodelled
+  layout_text_spec <text> <width>                       ->  <min>,<max>,<wrapped 0|1|E>   (Text.__rich_measure__ and "rendered at w, is any paragraph divided?")
+
+  flags = frames variant bitmask (as Drv/C08) , the seven Text/Wrap flags (as Drv/C02) , the three table flags   e.g. `12,0000000,000`
+  env   = consoleWidth,ascii,legacy,safe,nocolor,colorsystem
+  opts  = justify overflow nowrap (one character each, as Drv/C02: N d l c r f / N f c e i / N 0 1) joined by `,`
+  tree  = prefix tokens joined by `|` (see `parseR`); a text token is the wire format of Drv/C02 (`decText?`)
+
+Static domain (anything else answers `unmodelled`): every text is consistent (`Text.Inv`), panel / rule titles are one-line simple
+texts, box names exist, tables have at least one column and the same number of cells in every column, `Columns` has no explicit
+`width`, a `cast` does not directly wrap another `cast`, tables and columns only under a UTF-8, non-legacy console.
+Dynamic domain: every request is evaluated under two different poisons (see Model/Layout.lean) and answers `unmodelled` when the
+results differ.
+-/
+namespace RichModel.Drv.C01
+open RichModel RichModel.Proto RichModel.Frames RichModel.Layout
+
+def cw : Char → Nat := charWidthT Gen.cellWidths
+
+def decOptNat' (s : String) : Option Nat := if s == "-" then none else s.toNat?
+def decOptInt (s : String) : Option Int := if s == "-" then none else s.toInt?
+def decOptBool (s : String) : Option Bool := if s == "-" then none else some (s == "1")
+def decAlign (s : String) : AlignM := if s == "l" then .left else if s == "r" then .right else .center
+def decOptAlign (s : String) : Option AlignM := if s == "-" then none else some (decAlign s)
+
+def decJ (s : String) : Justify :=
+  match s with | "l" => .left | "c" => .center | "r" => .right | "f" => .full | _ => .default
+def decO (s : String) : RichModel.Overflow :=
+  match s with | "c" => .crop | "e" => .ellipsis | "i" => .ignore | _ => .fold
+
+def decOptText (s : String) : Option (Option T) := if s == "-" then some none else (C02.decText? s).map some
+
+def decEnv (s : String) : Env :=
+  match s.splitOn "," with
+  | [w, a, l, sb, nc, cs] =>
+    { consoleWidth := decNat w, asciiOnly := decBool a, legacyWindows := decBool l, safeBox := decBool sb,
+      noColor := decBool nc, colorSystem := decNat cs }
+  | _ => { consoleWidth := 80 }
+
+def decOpts (s : String) : Option Opts :=
+  match s.splitOn "," with
+  | [j, o, n] => do pure { justify := ← C02.decJustify? j, overflow := ← C02.decOverflow? o, noWrap := ← C02.decOptBool? n }
+  | _ => none
+
+def decFlags (s : String) : Option (Frames.Variant × Wrap.WVariant × Flags) :=
+  match s.splitOn "," with
+  | [a, b, c] => do
+    let n := decNat a
+    let v : Frames.Variant := { zeroWidthChild := n % 2 == 1, ruleRightRepeat := n / 2 % 2 == 1,
+                                rstripCountsChars := n / 4 % 2 == 1, columnsZeroCount := n / 8 % 2 == 1 }
+    let wv ← C02.decWVariant? b
+    match c.toList with
+    | [x, y, z] => pure (v, wv, { leadingRepeat := x == '1', minWidthCapsExpand := y == '1', fixedRawMaximum := z == '1' })
+    | _ => none
+  | _ => none
+
+def takeNats : Nat → List String → Option (List Nat × List String)
+  | 0, ts => some ([], ts)
+  | n+1, t :: ts => (takeNats n ts).map (fun (l, r) => (decNat t :: l, r))
+  | _+1, [] => none
+
+def takeBools : Nat → List String → Option (List Bool × List String)
+  | 0, ts => some ([], ts)
+  | n+1, t :: ts => (takeBools n ts).map (fun (l, r) => (decBool t :: l, r))
+  | _+1, [] => none
+
+def boxIndex (name : String) : Option (Option Nat) :=
+  if name == "-" then some none else (Gen.tableBoxes.findIdx? (·.1 == name)).map some
+
+mutual
+partial def parseR : List String → Option (R × List String)
+  | "T" :: t :: ts => do
+    let t ← C02.decText? t
+    pure (.text t, ts)
+  | "PAD" :: a :: b :: c :: d :: ex :: ts => do
+    let (e, ts) ← parseR ts
+    pure (.padding ⟨decNat a, decNat b, decNat c, decNat d⟩ (decBool ex) e, ts)
+  | "PANEL" :: box :: title :: ta :: sb :: ex :: wd :: n :: ts => do
+    let (dims, ts) ← takeNats (decNat n) ts
+    let (e, ts) ← parseR ts
+    pure (.panel { box := decNat box, title := decStr title, titleAlign := decAlign ta, safeBox := decOptBool sb,
+                   expand := decBool ex, width := decOptInt wd, padding := dims } e, ts)
+  | "ALIGN" :: a :: p :: wd :: ts => do
+    let (e, ts) ← parseR ts
+    pure (.align { align := decAlign a, pad := decBool p, width := decOptInt wd } e, ts)
+  | "CON" :: wd :: ts => do
+    let (e, ts) ← parseR ts
+    pure (.constrain (decOptNat' wd) e, ts)
+  | "STY" :: ts => do
+    let (e, ts) ← parseR ts
+    pure (.styled e, ts)
+  | "CAST" :: ts => do
+    let (e, ts) ← parseR ts
+    pure (.cast e, ts)
+  | "OPQ" :: ts => do
+    let (e, ts) ← parseR ts
+    pure (.opaque e, ts)
+  | "GRP" :: fit :: n :: ts => do
+    let (items, ts) ← parseRs (decNat n) ts
+    pure (.group (decBool fit) items, ts)
+  | "RULE" :: title :: chars :: e :: a :: ts =>
+    some (.rule { title := decStr title, characters := decStr chars, endS := decStr e, align := decAlign a }, ts)
+  | "BAR" :: sn :: sd :: bn :: bd :: en :: ed :: wd :: ts =>
+    some (.bar { size := ⟨decInt sn, decNat sd⟩, beginV := ⟨decInt bn, decNat bd⟩, endV := ⟨decInt en, decNat ed⟩,
+                 width := decOptInt wd }, ts)
+  | "PBAR" :: tn :: td :: cn :: cd :: wd :: pu :: tmn :: tmd :: ts =>
+    some (.progressBar { total := ⟨decInt tn, decNat td⟩, completed := ⟨decInt cn, decNat cd⟩, width := decOptInt wd,
+                         pulse := decBool pu, time := ⟨decInt tmn, decNat tmd⟩ }, ts)
+  | "TABLE" :: box :: sh :: sf :: se :: sl :: lead :: pt :: pr :: pb :: pl :: pe :: cp :: ex :: wd :: mw :: title :: cap :: tj :: cj
+      :: nsec :: ts => do
+    let box ← boxIndex box
+    let (secs, ts) ← takeBools (decNat nsec) ts
+    let title ← decOptText title
+    let cap ← decOptText cap
+    match ts with
+    | ncols :: ts =>
+      let (cols, ts) ← parseCols (decNat ncols) ts
+      pure (.table { box := box, showHeader := decBool sh, showFooter := decBool sf, showEdge := decBool se, showLines := decBool sl,
+                     leading := decNat lead, padding := ⟨decNat pt, decNat pr, decNat pb, decNat pl⟩, padEdge := decBool pe,
+                     collapsePadding := decBool cp, expand := decBool ex, width := decOptNat' wd, minWidth := decOptNat' mw,
+                     title := title, caption := cap, titleJustify := decJ tj, captionJustify := decJ cj, rowEndSection := secs } cols, ts)
+    | [] => none
+  | "COLS" :: np :: ts => do
+    let (dims, ts) ← takeNats (decNat np) ts
+    match ts with
+    | wd :: eq :: cf :: rtl :: ex :: al :: title :: n :: ts =>
+      let title ← decOptText title
+      let (items, ts) ← parseRs (decNat n) ts
+      pure (.columns { lay := { padding := dims, width := decOptInt wd, equal := decBool eq, columnFirst := decBool cf,
+                                rightToLeft := decBool rtl },
+                       expand := decBool ex, align := decOptAlign al, title := title } items, ts)
+    | _ => none
+  | "TREE" :: ts => do
+    let (t, ts) ← parseNode ts
+    pure (.tree t, ts)
+  | _ => none
+partial def parseRs : Nat → List String → Option (List R × List String)
+  | 0, ts => some ([], ts)
+  | n+1, ts => do
+    let (r, ts) ← parseR ts
+    let (rest, ts) ← parseRs n ts
+    pure (r :: rest, ts)
+partial def parseCol : List String → Option (Col × List String)
+  | "COL" :: j :: o :: nw :: wd :: mn :: mx :: ra :: ts => do
+    let (h, ts) ← parseR ts
+    let (f, ts) ← parseR ts
+    match ts with
+    | n :: ts =>
+      let (cells, ts) ← parseRs (decNat n) ts
+      pure (.mk { justify := decJ j, overflow := decO o, noWrap := decBool nw, width := decOptNat' wd, minWidth := decOptNat' mn,
+                  maxWidth := decOptNat' mx, ratio := decOptNat' ra } h f cells, ts)
+    | [] => none
+  | _ => none
+partial def parseCols : Nat → List String → Option (List Col × List String)
+  | 0, ts => some ([], ts)
+  | n+1, ts => do
+    let (c, ts) ← parseCol ts
+    let (rest, ts) ← parseCols n ts
+    pure (c :: rest, ts)
+partial def parseNode : List String → Option (TNode × List String)
+  | "N" :: b :: u :: ex :: k :: ts => do
+    let (label, ts) ← parseR ts
+    let (children, ts) ← parseNodes (decNat k) ts
+    pure (.mk label ⟨decOptBool b, decOptBool u⟩ (decBool ex) children, ts)
+  | _ => none
+partial def parseNodes : Nat → List String → Option (List TNode × List String)
+  | 0, ts => some ([], ts)
+  | n+1, ts => do
+    let (t, ts) ← parseNode ts
+    let (rest, ts) ← parseNodes n ts
+    pure (t :: rest, ts)
+end
+
+def parseTree (s : String) : Option R :=
+  match parseR (s.splitOn "|") with
+  | some (r, []) => some r
+  | _ => none
+
+/-! ### the static domain -/
+
+/-- executable `Text.Inv` -/
+def invB (t : T) : Bool :=
+  t.length == (t.plain.length : Int) && t.plain.all (fun c => !isStripCode c)
+    && t.spans.all (fun sp => decide (0 ≤ sp.start) && decide (sp.start ≤ sp.stop) && decide (sp.stop ≤ t.length))
+
+def titleOk (t : List Char) : Bool := (t.map (fun c => if c == '\n' then ' ' else c)).all simpleChar
+
+def optTextOk (t : Option T) : Bool := match t with | none => true | some t => invB t
+
+mutual
+partial def staticOk (env : Env) : R → Bool
+  | .text t => invB t
+  | .padding _ _ c => staticOk env c
+  | .panel o c =>
+    (match unpackPad o.padding with | .ok _ => true | .error _ => false) && titleOk o.title && decide (0 ≤ o.width.getD 0)
+      && (boxAt (substituteBox env (o.safeBox.getD env.safeBox) o.box)).isSome && staticOk env c
+  | .align o c => decide (0 ≤ o.width.getD 0) && staticOk env c
+  | .constrain _ c => staticOk env c
+  | .styled c => staticOk env c
+  | .cast c => (match c with | .cast _ => false | _ => true) && staticOk env c
+  | .opaque c => staticOk env c
+  | .group _ items => items.all (staticOk env)
+  | .rule o => decide (1 ≤ cellLen cw o.characters) && titleOk o.title && !(o.title.contains '\t')
+  | .bar o => decide (0 < o.size.den) && decide (0 < o.beginV.den) && decide (0 < o.endV.den) && !o.size.isZero
+      && decide (0 ≤ o.width.getD 0)
+  | .progressBar o => decide (0 < o.total.den) && decide (0 < o.completed.den) && decide (0 < o.time.den) && decide (0 ≤ o.width.getD 0)
+  | .table o cols =>
+    !env.asciiOnly && !env.legacyWindows && !cols.isEmpty && (match o.box with | some i => (boxOf i).isSome | none => true)
+      && optTextOk o.title && optTextOk o.caption
+      && (match cols with
+          | [] => false
+          | (.mk _ _ _ cells) :: _ => cols.all (fun c => match c with | .mk _ _ _ cs => cs.length == cells.length)
+                                        && o.rowEndSection.length == cells.length)
+      && cols.all (fun c => match c with | .mk _ h f cs => staticOk env h && staticOk env f && cs.all (staticOk env))
+  | .columns o items =>
+    !env.asciiOnly && !env.legacyWindows && o.lay.width.isNone && optTextOk o.title
+      && (match unpackPad o.lay.padding with | .ok _ => true | .error _ => false) && items.all (staticOk env)
+  | .tree root => nodeOk env root
+partial def nodeOk (env : Env) : TNode → Bool
+  | .mk label _ _ ch => staticOk env label && ch.all (nodeOk env)
+end
+
+def poisonA : List Seg := []
+def poisonB : List Seg := [seg [Char.ofNat 0xE000], nl, seg [Char.ofNat 0xE001], nl]
+
+def mkCfg (f : Frames.Variant × Wrap.WVariant × Flags) (env : Env) (poison : List Seg) : Cfg :=
+  { cw := cw, env := env, v := f.1, wv := f.2.1, fl := f.2.2, poison := poison }
+
+def flatText (segs : List Seg) : List Char := (segs.filter (fun s => !s.control)).flatMap (·.text)
+
+def orUnmodelled (o : Option String) : String := o.getD "unmodelled"
+
+def handlers : List (String × (List String → String)) := [
+  ("layout_render", fun a => match a with
+    | [flags, env, opts, width, tree] => orUnmodelled do
+      let f ← decFlags flags
+      let env := decEnv env
+      let o ← decOpts opts
+      let r ← parseTree tree
+      if !staticOk env r then none else
+      let w := decInt width
+      let a := consoleRender (mkCfg f env poisonA) r o w
+      let b := consoleRender (mkCfg f env poisonB) r o w
+      if a != b then none else pure ("ok:" ++ encStr (flatText a))
+    | _ => "unmodelled"),
+  ("layout_measure", fun a => match a with
+    | [flags, env, width, tree] => orUnmodelled do
+      let f ← decFlags flags
+      let env := decEnv env
+      let r ← parseTree tree
+      if !staticOk env r then none else
+      let w := decInt width
+      let a := measureGet (mkCfg f env poisonA) r w
+      let b := measureGet (mkCfg f env poisonB) r w
+      if a != b then none else pure s!"m:{a.minimum},{a.maximum}"
+    | _ => "unmodelled"),
+  ("layout_smin", fun a => match a with
+    | [tree] => orUnmodelled do
+      let r ← parseTree tree
+      pure (toString (smin cw r))
+    | _ => "unmodelled"),
+  ("layout_text_spec", fun a => match a with
+    | [flags, text, width] => orUnmodelled do
+      let f ← decFlags flags
+      let t ← C02.decText? text
+      if !invB t then none else
+      let m := textRichMeasure cw t
+      let cfg := mkCfg f { consoleWidth := 80 } []
+      let w := decNat width
+      let nPar := (splitOnP (· == '\n') t.plain []).length
+      let wrapped := match textLines cfg t {} w with
+        | .ok ls => if ls.length == nPar then "0" else "1"
+        | .error _ => "E"
+      pure s!"{m.minimum},{m.maximum},{wrapped}"
+    | _ => "unmodelled")
+]
 
 end RichModel.Drv.C01
